@@ -16,6 +16,7 @@ import (
 	"context"
 	"fmt"
 	"sort"
+	"strings"
 
 	"github.com/oxia-db/oxia/proto"
 )
@@ -229,27 +230,61 @@ func headOf(l []entry) (int64, int) {
 	return l[len(l)-1].term, len(l)
 }
 
+// onTruncateDecision: what truncateFollowerIfNeeded decides on the leader's whole log vs what it asked for.
+func (m *monitor) onTruncateDecision(call *asyncCall, l, f int, req *proto.TruncateRequest) {
+	ll, fl := m.c.shadowLog(l), m.c.shadowLog(f)
+	if call == nil || call.resps[f] == nil {
+		return
+	}
+	n := int(call.headOff) + 1
+	if n > len(ll) {
+		n = len(ll)
+	}
+	lhT, lhL := headOf(ll[:n])
+	fhT, fhL := headOf(call.resps[f].log)
+	d, tk, k := attachDecide(ll, lhT, lhL, fhT, fhL)
+	m.c.mu.Lock()
+	first := m.c.node(l).walFirst
+	m.c.mu.Unlock()
+	if (d == 0 || (d == 1 && (tk != req.HeadEntryId.Term || int64(k-1) != req.HeadEntryId.Offset))) && first > 0 {
+		m.c.violate("truncate:snapshot-installed-leader-over-truncates-follower", fmt.Sprintf(
+			"term %d: leader %d holds log %s but its WAL starts at offset %d (the prefix was installed as a snapshot); follower %d reported head (%d,%d), which the leader's log contains up to entry id (%d,%d), but the leader looked only at its WAL and sent Truncate(%d,%d): the follower now holds %s",
+			req.Term, l, logTok(ll), first, f, fhT, fhL-1, tk, k-1, req.HeadEntryId.Term, req.HeadEntryId.Offset, logTok(fl)))
+		m.c.skipModel("a leader whose log prefix is a snapshot truncates by looking at its WAL only; the model's leader consults its whole log")
+	}
+}
+
+// onAttachWithoutTruncate: the leader attached the follower's cursor without sending a Truncate: the follower's log
+// must then be a prefix of the leader's log (it is going to be extended from its head, and its head is credited to it).
+func (m *monitor) onAttachWithoutTruncate(call *asyncCall, f int) {
+	l := call.node
+	ll, fl := m.c.shadowLog(l), m.c.shadowLog(f)
+	i := firstDiff(fl, ll)
+	if i < 0 {
+		return
+	}
+	n := int(call.headOff) + 1
+	if n > len(ll) {
+		n = len(ll)
+	}
+	lhT, lhL := headOf(ll[:n])
+	fhT, fhL := headOf(fl)
+	d, tk, k := attachDecide(ll, lhT, lhL, fhT, fhL)
+	want := "attach without truncation"
+	if d == 1 {
+		want = fmt.Sprintf("Truncate to entry id (%d,%d)", tk, k-1)
+	} else if d == 2 {
+		want = "refuse the follower (its head term is above the leader's)"
+	}
+	m.c.violate("truncate:follower-keeps-entries-the-leader-lacks", fmt.Sprintf(
+		"term %d: Attach %d>%d: leader %d (log %s, election head offset %d) attached follower %d with head (%d,%d) WITHOUT sending a Truncate and credits its cursor with offset %d; the follower's log %s differs from the leader's at offset %d (truncateFollowerIfNeeded on these logs must: %s)",
+		call.term, l, f, l, logTok(ll), call.headOff, f, fhT, fhL-1, int64(fhL)-1, logTok(fl), i, want))
+}
+
 func (m *monitor) onTruncate(call *asyncCall, l, f int, req *proto.TruncateRequest, res *proto.TruncateResponse) {
 	ll, fl := m.c.shadowLog(l), m.c.shadowLog(f)
-	// what truncateFollowerIfNeeded decides on the leader's whole log vs what it asked for
-	if call != nil && call.resps[f] != nil {
-		n := int(call.headOff) + 1
-		if n > len(ll) {
-			n = len(ll)
-		}
-		lhT, lhL := headOf(ll[:n])
-		fhT, fhL := headOf(call.resps[f].log)
-		d, tk, k := attachDecide(ll, lhT, lhL, fhT, fhL)
-		m.c.mu.Lock()
-		first := m.c.node(l).walFirst
-		m.c.mu.Unlock()
-		if (d == 0 || (d == 1 && (tk != req.HeadEntryId.Term || int64(k-1) != req.HeadEntryId.Offset))) && first > 0 {
-			m.c.violate("truncate:snapshot-installed-leader-over-truncates-follower", fmt.Sprintf(
-				"term %d: leader %d holds log %s but its WAL starts at offset %d (the prefix was installed as a snapshot); follower %d reported head (%d,%d), which the leader's log contains up to entry id (%d,%d), but the leader looked only at its WAL and sent Truncate(%d,%d): the follower now holds %s",
-				req.Term, l, logTok(ll), first, f, fhT, fhL-1, tk, k-1, req.HeadEntryId.Term, req.HeadEntryId.Offset, logTok(fl)))
-			m.c.skipModel("a leader whose log prefix is a snapshot truncates by looking at its WAL only; the model's leader consults its whole log")
-			return
-		}
+	if m.c.tainted != "" && strings.HasPrefix(m.c.tainted, "truncate:snapshot-installed-leader") {
+		return
 	}
 	// the hypothesis of the proved theorem: after its single Truncate round the follower's head is an entry the
 	// leader would accept without truncating again
